@@ -28,7 +28,8 @@ inline std::enable_if_t<!std::is_unsigned<T>::value, T> diff(T const &a, T const
 template <typename T>
 inline std::enable_if_t<std::is_unsigned<T>::value, T> diff(T const &a, T const &b)
 {
-  return std::min(a - b, b - a);
+  // Types smaller than int are promoted, so convert the differences back before comparing them.
+  return std::min(static_cast<T>(a - b), static_cast<T>(b - a));
 }
 
 }
